@@ -36,18 +36,6 @@ class LoggingInterface(sut.Interface):
     """User extension: Simulator(interface_type=...) with a subclass of Interface that adds nothing."""
 
 
-def min_rate_interface(m):
-    """User extension: an Interface subclass that tells the algorithms every vehicle needs at least m amps while it charges
-    (SessionInfo.min_rates is a documented input of the algorithms; the stock Interface fills it with the EVSE minimum / 0)."""
-    class MinRateInterface(sut.Interface):
-        def active_sessions(self):
-            ss = super().active_sessions()
-            for s_ in ss:
-                s_.min_rates = sut.np.full(len(s_.min_rates), float(m))
-            return ss
-    return MinRateInterface
-
-
 class LoggingBattery(sut.Battery):
     """User extension: a Battery subclass whose overrides delegate to the base class."""
 
@@ -187,8 +175,6 @@ def build_sim(sc, party, network=None, reuse_evs=None, reuse_queue=None, later=N
     kw = {}
     if sc["sim"].get("iface_sub"):
         kw["interface_type"] = LoggingInterface
-    if sc["sim"].get("iface_min_rate"):
-        kw["interface_type"] = min_rate_interface(sc["sim"]["iface_min_rate"])
     sim = sut.Simulator(nw, first, q, build_start(sc["sim"]), period=sc["sim"]["period"],
                         signals=build_signals(sc["sim"]),
                         store_schedule_history=sc["sim"].get("store_schedule_history", False),
